@@ -1,8 +1,62 @@
 package raft
 
-import "time"
+import (
+	"strconv"
+	"time"
+)
 
-var vrfEntries = map[string]func(){"VrfC15Raft": VrfC15Raft}
+var vrfEntries = map[string]func(){"VrfC15Raft": VrfC15Raft, "VrfC15RaftEnv": VrfC15RaftEnv}
+
+// VrfC15RaftEnv: settings supplied through environment variables on top of an
+// arbitrary valid configuration. Zero / empty means "keep what is there" except
+// for commit_retries, which is taken as given.
+func VrfC15RaftEnv() {
+	cfg := &Config{}
+	cfg.Default()
+	cfg.WaitForLeaderTimeout = time.Duration(vrf_nondet_int64("wait_for_leader_timeout"))
+	cfg.NetworkTimeout = time.Duration(vrf_nondet_int64("network_timeout"))
+	cfg.CommitRetries = vrf_nondet_int("commit_retries")
+	cfg.CommitRetryDelay = time.Duration(vrf_nondet_int64("commit_retry_delay"))
+	cfg.BackupsRotate = vrf_nondet_int("backups_rotate")
+	vrf_assume(cfg.Validate() == nil)
+	bW, bN, bR, bD, bB, bNS, bTL := cfg.WaitForLeaderTimeout, cfg.NetworkTimeout, cfg.CommitRetries, cfg.CommitRetryDelay, cfg.BackupsRotate, cfg.DatastoreNamespace, cfg.RaftConfig.TrailingLogs
+
+	setW, valW := vrf_nondet_bool("env_set_WaitForLeaderTimeout"), time.Duration(vrf_nondet_int64("env_WaitForLeaderTimeout"))
+	setN, valN := vrf_nondet_bool("env_set_NetworkTimeout"), time.Duration(vrf_nondet_int64("env_NetworkTimeout"))
+	setR, valR := vrf_nondet_bool("env_set_CommitRetries"), vrf_nondet_int("env_CommitRetries")
+	setD, valD := vrf_nondet_bool("env_set_CommitRetryDelay"), time.Duration(vrf_nondet_int64("env_CommitRetryDelay"))
+	setB, valB := vrf_nondet_bool("env_set_BackupsRotate"), vrf_nondet_int("env_BackupsRotate")
+	setS, valS := vrf_nondet_bool("env_set_DatastoreNamespace"), vrf_nondet_string("env_DatastoreNamespace")
+	setT, valT := vrf_nondet_bool("env_set_TrailingLogs"), vrf_nondet_uint64("env_TrailingLogs")
+	vrf_env(envConfigKey, "WaitForLeaderTimeout", setW, valW.String())
+	vrf_env(envConfigKey, "NetworkTimeout", setN, valN.String())
+	vrf_env(envConfigKey, "CommitRetries", setR, strconv.Itoa(valR))
+	vrf_env(envConfigKey, "CommitRetryDelay", setD, valD.String())
+	vrf_env(envConfigKey, "BackupsRotate", setB, strconv.Itoa(valB))
+	vrf_env(envConfigKey, "DatastoreNamespace", setS, valS)
+	vrf_env(envConfigKey, "TrailingLogs", setT, strconv.FormatUint(valT, 10))
+
+	err := cfg.ApplyEnvVars()
+
+	wW := time.Duration(vrf_ite_int(vrf_and(setW, valW != 0), int(valW), int(bW)))
+	wN := time.Duration(vrf_ite_int(vrf_and(setN, valN != 0), int(valN), int(bN)))
+	wR := vrf_ite_int(setR, valR, bR)
+	wD := time.Duration(vrf_ite_int(vrf_and(setD, valD != 0), int(valD), int(bD)))
+	wB := vrf_ite_int(vrf_and(setB, valB != 0), valB, bB)
+	wS := vrf_ite_str(vrf_and(setS, valS != ""), valS, bNS)
+	wT := uint64(vrf_ite_int(vrf_and(setT, valT != 0), int(valT), int(bTL)))
+	wantValid := vrf_and(vrf_and(wW > 0, wN > 0), vrf_and(wR >= 0, vrf_and(wD > 0, wB > 0)))
+	if err == nil {
+		vrf_assert(vrf_and(cfg.WaitForLeaderTimeout == wW, vrf_and(cfg.NetworkTimeout == wN, cfg.CommitRetryDelay == wD)), "C15.raft.env-in-effect")
+		vrf_assert(vrf_and(cfg.CommitRetries == wR, cfg.BackupsRotate == wB), "C15.raft.env-in-effect")
+		vrf_assert(cfg.DatastoreNamespace == wS, "C15.raft.env-in-effect")
+		vrf_assert(cfg.RaftConfig.TrailingLogs == wT, "C15.raft.env-in-effect")
+		vrf_assert(cfg.Validate() == nil, "C15.raft.env-accepted-implies-valid")
+	} else {
+		vrf_assert(!wantValid, "C15.raft.env-valid-accepted")
+	}
+	vrf_reach("C15.raft.env-end")
+}
 
 func vrfDurSame(got, want, def time.Duration) bool {
 	return vrf_or(got == want, vrf_and(want == 0, got == def))
@@ -15,6 +69,7 @@ func VrfC15Raft() {
 	cfg := &Config{}
 	cfg.Default()
 	cfg.DataFolder = vrf_nondet_string("data_folder")
+	cfg.DatastoreNamespace = vrf_nondet_string("datastore_namespace")
 	cfg.WaitForLeaderTimeout = time.Duration(vrf_nondet_int64("wait_for_leader_timeout"))
 	cfg.NetworkTimeout = time.Duration(vrf_nondet_int64("network_timeout"))
 	cfg.CommitRetries = vrf_nondet_int("commit_retries")
@@ -32,6 +87,9 @@ func VrfC15Raft() {
 	if valid {
 		vrf_assert(lerr == nil, "C15.raft.valid-loads")
 		vrf_assert(back.DataFolder == cfg.DataFolder, "C15.raft.roundtrip")
+		// (an empty namespace conventionally means "use the default")
+		vrf_note_bool("namespace_is_default", vrf_or(cfg.DatastoreNamespace == "", cfg.DatastoreNamespace == DefaultDatastoreNamespace))
+		vrf_assert(vrf_or(back.DatastoreNamespace == cfg.DatastoreNamespace, vrf_and(cfg.DatastoreNamespace == "", back.DatastoreNamespace == DefaultDatastoreNamespace)), "C15.raft.roundtrip-namespace")
 		vrf_assert(vrf_and(back.WaitForLeaderTimeout == cfg.WaitForLeaderTimeout, vrf_and(back.NetworkTimeout == cfg.NetworkTimeout, back.CommitRetryDelay == cfg.CommitRetryDelay)), "C15.raft.roundtrip")
 		vrf_assert(back.CommitRetries == cfg.CommitRetries && back.BackupsRotate == cfg.BackupsRotate, "C15.raft.roundtrip")
 		vrf_assert(vrf_or(back.RaftConfig.SnapshotThreshold == cfg.RaftConfig.SnapshotThreshold, vrf_and(cfg.RaftConfig.SnapshotThreshold == 0, back.RaftConfig.SnapshotThreshold == dd.RaftConfig.SnapshotThreshold)), "C15.raft.roundtrip-raftconfig")
